@@ -17,11 +17,13 @@ noncomputable instance : Scipp ℝ where
   sqSame := fun x => x ^ 2
   i64 := fun n => (n : ℝ)
   half := 1 / 2
+  asCommon4 := fun x _ _ _ _ => x
 
 @[simp] theorem asFloatLike_real (x r : ℝ) : asFloatLike x r = x := rfl
 @[simp] theorem sq_real (x : ℝ) : sq x = x ^ 2 := rfl
 @[simp] theorem sqSame_real (x : ℝ) : sqSame x = x ^ 2 := rfl
 @[simp] theorem i64_real (n : ℕ) : (i64 n : ℝ) = (n : ℝ) := rfl
 @[simp] theorem half_real : (half : ℝ) = 1 / 2 := rfl
+@[simp] theorem asCommon4_real (x a b c d : ℝ) : asCommon4 x a b c d = x := rfl
 
 end ScnVerif.Tof
